@@ -72,3 +72,61 @@ pub fn set_playback(on: bool) {
 pub fn is_playback() -> bool {
     unsafe { PLAYBACK.1 }
 }
+
+// ---------------------------------------------------------------------------------------------
+// Native allocation probe (replay of `// @alloclimit` harnesses)
+// ---------------------------------------------------------------------------------------------
+// Under CBMC the limit is asserted inside the allocator model (run_check.py links a copy of
+// kani_lib.c with the assertion). A native replay has no such model: the replay tests are built
+// with cfg(test), where this pass-through global allocator records the largest single request.
+
+#[cfg(test)]
+mod native_alloc {
+    use std::alloc::{GlobalAlloc, Layout, System};
+    use std::sync::atomic::{AtomicUsize, Ordering};
+
+    pub static MAX_REQUEST: AtomicUsize = AtomicUsize::new(0);
+
+    pub struct Probe;
+
+    unsafe impl GlobalAlloc for Probe {
+        unsafe fn alloc(&self, layout: Layout) -> *mut u8 {
+            MAX_REQUEST.fetch_max(layout.size(), Ordering::Relaxed);
+            System.alloc(layout)
+        }
+        unsafe fn alloc_zeroed(&self, layout: Layout) -> *mut u8 {
+            MAX_REQUEST.fetch_max(layout.size(), Ordering::Relaxed);
+            System.alloc_zeroed(layout)
+        }
+        unsafe fn realloc(&self, ptr: *mut u8, layout: Layout, new_size: usize) -> *mut u8 {
+            MAX_REQUEST.fetch_max(new_size, Ordering::Relaxed);
+            System.realloc(ptr, layout, new_size)
+        }
+        unsafe fn dealloc(&self, ptr: *mut u8, layout: Layout) {
+            System.dealloc(ptr, layout)
+        }
+    }
+
+    #[global_allocator]
+    static PROBE: Probe = Probe;
+}
+
+/// Replay only: forget the allocation requests seen so far.
+#[cfg(test)]
+pub fn native_alloc_reset() {
+    native_alloc::MAX_REQUEST.store(0, std::sync::atomic::Ordering::Relaxed);
+}
+
+#[cfg(not(test))]
+pub fn native_alloc_reset() {}
+
+/// Replay only: largest single allocation request since `native_alloc_reset` (0 under Kani).
+#[cfg(test)]
+pub fn native_alloc_max() -> usize {
+    native_alloc::MAX_REQUEST.load(std::sync::atomic::Ordering::Relaxed)
+}
+
+#[cfg(not(test))]
+pub fn native_alloc_max() -> usize {
+    0
+}
